@@ -107,6 +107,42 @@ class Unit:
             self.parts.append(out)
         return out
 
+    def helpers(self, src, rel, text, known=(), rules=None, depth=3):
+        """File-local helper functions: every identifier that `text` (an extracted body) calls and that is defined in
+        source file `rel` as a free function with internal linkage (`static [inline] T name(params) { ... }` at namespace
+        scope) is extracted as well, with the generic rewrites only, and emitted BEFORE the caller (recursively, up to
+        `depth` levels).  A maintainer who factors a condition out into such a helper changes the verified text, not the
+        reach of the check.  Only plain C-compatible helpers qualify: the residue scan of the unit rejects anything else
+        (extraction break, exit 2).  Returns the list of helper names emitted."""
+        out = []
+        if depth <= 0:
+            return out
+        ftext = src.text(rel)
+        m = lex.mask(ftext)
+        have = set(known) | {f['c_header'].split('(')[0].split()[-1].lstrip('*') for f in self.functions if '(' in f['c_header']}
+        for name in dict.fromkeys(re.findall(r'(?<![\w.>:])([A-Za-z_]\w*)\s*\(', lex.mask(text))):
+            if name in have or name in ('if', 'while', 'for', 'switch', 'return', 'sizeof'):
+                continue
+            sig = r'\bstatic\s+(?:inline\s+)?(?:const\s+)?[\w:]+[\s*&]+' + re.escape(name) + r'\s*\([^(){};]*\)'
+            hits = [mo for mo in re.finditer(sig, m) if m[mo.end():].lstrip().startswith('{') and m.count('{', 0, mo.start()) - m.count('}', 0, mo.start()) <= 1]
+            if len(hits) != 1:
+                continue
+            header, body, s0, e0 = lex.find_def(ftext, sig, 'helper ' + name)
+            have.add(name)
+            out += self.helpers(src, rel, body, known=have, rules=rules, depth=depth - 1)
+            have.update(out)
+            where = '%s:helper %s' % (rel, name)
+            body = self._post(body, where, rules, True, None, None, None)
+            h = header
+            for r in lex.GENERIC:
+                h = r.apply(h, where)
+            h = re.sub(r'\b(\w+)\s*&\s*(\w+)', r'\1* \2', h) if '&' in h else h
+            self.functions.append({'file': rel, 'cxx_header': ' '.join(header.split()), 'c_header': ' '.join(h.split()),
+                                   'line': ftext.count('\n', 0, s0) + 1, 'helper': True})
+            self.parts.append(h.rstrip() + '\n' + body + '\n')
+            out.append(name)
+        return out
+
     def block(self, src, rel, func_sig_regex, intro_regex, *, new_header, rules=None, ret_zero=None,
               loops=None, nloops=None, witness='', classmap=None, emit=True, occurrence=None):
         """Extract a brace block *inside* a function (e.g. a lambda body, one branch) and emit it as
